@@ -23,6 +23,9 @@ import TdVerif.Lemmas.C08Reduce
 import TdVerif.Lemmas.C08Resize
 import TdVerif.Lemmas.C08Shape2
 import TdVerif.Lemmas.C08Out
+import TdVerif.Lemmas.C08Set2
+import TdVerif.Lemmas.C08Set3
+import TdVerif.Lemmas.C08Mask2Get
 
 namespace TdVerif.Props.C08
 open TdVerif.C08
@@ -226,6 +229,22 @@ theorem getitem_refines [Inhabited α] (L : Lazy α) (b : Shape) (keys : List St
     (d : TD α) (hd : (absL L).getitem ix = some d) : ReadOK r d :=
   getitem_refines_all L b keys feat hU hne0 ix hadv hp r hr d hd
 
+/-- **Reads, stage 4: a rank-2 mask ON the stack dim** — `lazy[pre…, mask2d, post…]` where `pre`
+(ints, slices, None) consumes exactly the dims before the stack dim and `mask2d` covers the stack
+dim and the next dim (`has_bool` with `mask_unbind[0].ndim > 0`, `mask_dim == stack_dim`): for every
+position `i` of the stack dim, member `i` is indexed with row `i` of the mask (`self[(:,)*stack_dim
++ (i,)][_idx]`), and the results are concatenated along `mask_loc - num_single`; the dense
+tensordict this builds is `dense[index]` — the true positions of the mask are visited row by row. -/
+theorem getitem_refines_stage4_mask2 [Inhabited α] (L : Lazy α) (b : Shape) (keys : List String)
+    (feat : String → Shape) (hU : Uniform L b keys feat) (hne0 : L.members ≠ []) (pre post : List Ix)
+    (m : T Bool) (w : Nat)
+    (hpre : BasicPre pre) (hpd : preDims pre = L.sd) (hpost : ∀ it ∈ post, it ≠ Ix.ell)
+    (hm : m.shape = [L.members.length, w])
+    (r : LRes α) (hr : lazyGetCoreM L (pre ++ .mask m :: post) = some r)
+    (d : TD α) (hd : (absL L).index (pre ++ .mask m :: post) = some d) :
+    absR r ≈ d :=
+  getitem_refines_mask2_on L b keys feat hU hne0 pre post m w hpre hpd hpost hm r hr d hd
+
 /-! ## writes by index -/
 
 /-- **Writes through the stack land in the members** (`lazy[ix] = v`, tensordict value of the
@@ -398,6 +417,25 @@ theorem setitem_refines_stage1 [Inhabited α] (L : Lazy α) (b : Shape) (keys : 
       exact idxShape_append _ _ _ _ hbd
     rw [hvl k hkeys, hvb] at ho ho'
     exact idxCoord_inj_basic ix _ _ hbasic hbd' o o' ho ho' heq
+
+/-- **Writes with a rank-2 integer tensor (distinct entries) on the stack dim**
+(`lazy[..., tensor([[1, 0], [2, 3]]), ...] = v`, the `is_nd_tensor` branch of `__setitem__`: `assign`
+unbinds the value once per level of the index tensor and entry `(a, b)` goes to member `t[a, b]`
+through the member index): the dense stack of the members afterwards is `dense[ix] = v`
+(hit + frame per key), and the stack stays uniform. -/
+theorem setitem_write_through_tens2 [Inhabited α] (L : Lazy α) (b : Shape) (keys : List String)
+    (feat : String → Shape) (hU : Uniform L b keys feat) (hne0 : L.members ≠ []) (ix : List Ix)
+    (hp : Plain L.sd ix) (hne : ∀ it ∈ ix, it ≠ Ix.ell) (hadv : AtMostOneAdv ix)
+    (hnd : NoDupTargets (splitRec L.sd ix).out)
+    (t : T Int) (k1 k2 : Nat) (hitem : (splitRec L.sd ix).item = some (.tens t)) (hkt : t.shape = [k1, k2])
+    (hdist : ∀ a b' a' b'', a < k1 → b' < k2 → a' < k1 → b'' < k2 →
+      normInt (t.get [a, b']) L.members.length = normInt (t.get [a', b'']) L.members.length → a = a' ∧ b' = b'')
+    (v : TD α) (hvk : v.keys = keys) (hvl : ∀ k ∈ keys, (v.leaf k).shape = v.batch ++ feat k)
+    (bd : Shape) (hbd : idxShape ix (absL L).batch = some bd)
+    (L' : Lazy α) (h : lazySetCore L ix v = some L') :
+    L'.sd = L.sd ∧ Uniform L' b keys feat ∧ L'.members.length = L.members.length ∧
+    ∀ k ∈ keys, IsSetT ix ((absL L).leaf k) (v.leaf k) ((absL L').leaf k) :=
+  setitem_refines_tens2 L b keys feat hU hne0 ix hp hne hadv hnd t k1 k2 hitem hkt hdist v hvk hvl bd hbd L' h
 
 /-! ## shape operations: stack-dim bookkeeping -/
 
@@ -697,6 +735,39 @@ theorem expand_is_dense [Inhabited α] (L : Lazy α) (b : Shape) (keys : List St
     L'.sd = shape.length + L.sd - L.batch.length ∧ absL L' ≈ (absL L).expandTo shape :=
   expand_refines L b keys feat hU hne0 shape L' h
 
+/-- **Writes through a stack of stacks compose**: `lazy_of_lazy[ix] = v` for an Ellipsis-free index
+whose masks do not touch the OUTER stack dim and whose outer stack-dim item is absent / an int / a
+slice / a rank-1 integer tensor with distinct entries.  The outer `__setitem__` hands
+`v.unbind(unbind_dim)[j]` to inner stack `ids j` through the remainder index; if every such inner
+write is a write-through of its value (`InnerSetOK`), then afterwards the dense stack of dense
+stacks is the one before with `v` written at `ix` (hit + frame per key), and the stack of stacks
+is still uniform. -/
+theorem setitem_stack_of_stacks_composes [Inhabited α] (Lo : Lazy2 α) (bIn : Shape) (keys : List String)
+    (feat : String → Shape) (sdIn nIn : Nat) (hU : Uniform2 Lo bIn keys feat sdIn nIn) (hne0 : Lo.members ≠ [])
+    (ix : List Ix) (hp : Plain Lo.sd ix) (hne : ∀ it ∈ ix, it ≠ Ix.ell) (hadv : AtMostOneAdv ix)
+    (hdist : ∀ t, (splitRec Lo.sd ix).item = some (.tens t) → ∃ k, t.shape = [k] ∧
+      ∀ j j', j < k → j' < k →
+        normInt (t.get [j]) Lo.members.length = normInt (t.get [j']) Lo.members.length → j = j')
+    (hin : InnerSetOK Lo bIn keys feat (splitRec Lo.sd ix).out)
+    (v : TD α) (hvk : v.keys = keys) (hvl : ∀ k ∈ keys, (v.leaf k).shape = v.batch ++ feat k)
+    (bd : Shape) (hbd : idxShape ix (abs2 Lo).batch = some bd)
+    (Lo' : Lazy2 α) (h : lazySetCore2 Lo ix v = some Lo') :
+    Lo'.sd = Lo.sd ∧ Uniform2 Lo' bIn keys feat sdIn nIn ∧ Lo'.members.length = Lo.members.length ∧
+    ∀ k ∈ keys, IsSetT ix ((abs2 Lo).leaf k) (v.leaf k) ((abs2 Lo').leaf k) :=
+  setitem2_core Lo bIn keys feat sdIn nIn hU hne0 ix hp hne hadv hdist hin v hvk hvl bd hbd Lo' h
+
+/-- the inner hypothesis discharged by the one-level write theorem: the remainder index is in its
+grammar for the inner stacks (no mask on / spanning the inner stack dim, inner stack-dim item
+absent / int / slice / rank-1 tensor with distinct entries, no duplicate targets elsewhere) -/
+theorem setitem_stack_of_stacks_inner [Inhabited α] (Lo : Lazy2 α) (bIn : Shape) (keys : List String)
+    (feat : String → Shape) (sdIn nIn : Nat) (hU : Uniform2 Lo bIn keys feat sdIn nIn) (out : List Ix)
+    (hp : Plain sdIn out) (hne : ∀ it ∈ out, it ≠ Ix.ell) (hadv : AtMostOneAdv out)
+    (hnd : NoDupTargets (splitRec sdIn out).out)
+    (hdist : ∀ t, (splitRec sdIn out).item = some (.tens t) → ∃ k, t.shape = [k] ∧
+      ∀ j j', j < k → j' < k → normInt (t.get [j]) nIn = normInt (t.get [j']) nIn → j = j') :
+    InnerSetOK Lo bIn keys feat out :=
+  innerSetOK_of_refines Lo bIn keys feat sdIn nIn hU out hp hne hadv hnd hdist
+
 /-- **`unsqueeze` on a stack of stacks**: the outer `_unsqueeze` calls the inner stacks' `unsqueeze`
 (shifted past the outer stack dim) and re-stacks; the result materialises to
 `dense_of_dense.unsqueeze(dim)` — the one-level argument lifted over members that are lazy stacks
@@ -719,6 +790,20 @@ theorem permute_stack_of_stacks [Inhabited α] (Lo : Lazy2 α) (bIn : Shape) (ke
       p = (dims.map fun d => if d ≥ 0 then d else (Lo.batch.length : Int) + d).map Int.toNat ∧
       abs2 Lo' ≈ (abs2 Lo).permute p :=
   permute2_refines Lo bIn keys feat sdIn nIn hU hne0 dims Lo' h
+
+/-- **`transpose` on a stack of stacks** (every pair of dims, any sign spelling): equal dims return
+the stack, the outer stack dim swapped with a neighbour just moves, swapped with a farther dim the
+inner stacks are rolled with their own `permute` (the branch repaired by "transpose with the stack
+dim and a non-adjacent dim": this is where it was wrong, from batch rank 4 on), and a pair of other
+dims is transposed inside the inner stacks — always `dense_of_dense.transpose(dim0, dim1)`. -/
+theorem transpose_stack_of_stacks [Inhabited α] (Lo : Lazy2 α) (bIn : Shape) (keys : List String) (feat : String → Shape)
+    (sdIn nIn : Nat) (hU : Uniform2 Lo bIn keys feat sdIn nIn) (hne0 : Lo.members ≠ []) (dim0 dim1 : Int)
+    (Lo' : Lazy2 α) (h : lazyTranspose2 Lo dim0 dim1 = some Lo') :
+    ∃ x y : Nat, (x : Int) = (if dim0 < 0 then (Lo.batch.length : Int) + dim0 else dim0) ∧
+      (y : Int) = (if dim1 < 0 then (Lo.batch.length : Int) + dim1 else dim1) ∧
+      x < Lo.batch.length ∧ y < Lo.batch.length ∧
+      abs2 Lo' ≈ (abs2 Lo).transpose (min x y) (max x y) :=
+  transpose2_refines Lo bIn keys feat sdIn nIn hU hne0 dim0 dim1 Lo' h
 
 /-! ## non-vacuity: a concrete 3-member stack (batch [2], stack dim 1, key `a`) -/
 
@@ -770,6 +855,9 @@ example : ((lazySplit exL [1, 2] 1).map fun ps => ps.map fun
 example : (match lazyExpand ⟨[exM 0], 1⟩ [2, 2, 3] with
     | some L' => (L'.sd, L'.members.length, (absL L').batch, ((absL L').leaf "a").toList) | none => (9, 0, [], []))
     = (2, 3, [2, 2, 3], [0, 0, 0, 1, 1, 1, 0, 0, 0, 1, 1, 1]) := by decide
+-- stage 4: a rank-2 mask on the stack dim of a stack along dim 0 (batch [2, 2]): rows [T, F] and [T, T]
+example : (match lazyGetCoreM (⟨[exM 0, exM 1], 0⟩ : Lazy Int) [.mask (T.ofList [2, 2] [true, false, true, true])] with
+    | some r => ((absR r).batch, ((absR r).leaf "a").toList) | none => ([], [])) = ([3], [0, 10, 11]) := by decide
 -- stack of stacks: two copies of `exL` stacked at dim 0 (batch [2, 2, 3]); `lol[1, :, 2]` is
 -- `inner_1[:, 2]` = member 2 of the second inner stack
 def exL2 : Lazy2 Int := ⟨[exL, exL], 0⟩
